@@ -137,7 +137,8 @@ def _bfs_edges_rust(
             return Result(list(result["path"]), len(result["path"]) - 1, result["iterations"], 0)
         return Result(None, float("inf"), result["iterations"], 0, Status.INFEASIBLE)
 
-    return Result(list(result["visited_order"]), 0, result["iterations"], 0)
+    # Same answer as the Python path: the reachable nodes in sorted order, not the visit order
+    return Result(sorted(result["visited_order"]), 0, result["iterations"], 0)
 
 
 @rust_adapter("dfs_edges")
@@ -158,7 +159,8 @@ def _dfs_edges_rust(
             return Result(list(result["path"]), len(result["path"]) - 1, result["iterations"], 0)
         return Result(None, float("inf"), result["iterations"], 0, Status.INFEASIBLE)
 
-    return Result(list(result["visited_order"]), 0, result["iterations"], 0)
+    # Same answer as the Python path: the reachable nodes in sorted order, not the visit order
+    return Result(sorted(result["visited_order"]), 0, result["iterations"], 0)
 
 
 @rust_adapter("pagerank_edges")
